@@ -35,7 +35,12 @@ PROPS = {
                      "slow) and the k-list, every stride-th input (quick: every 2nd / 4th) with all of them, and compared with the exact "
                      "values at the k-points the code itself reports (any order of the grid); random larger exact models are recorded from "
                      "the code and every clause of TBFourierRec is evaluated on them by TLC; random real-valued models (FFT sizes with "
-                     "factors 5, 7, 11, up to 16) compare the back ends with each other.",
+                     "factors 5, 7, 11, up to 16) compare the back ends with each other. Call histories (MC_TBFourierHist): TLC enumerates every "
+                     "sequence set_fft_R_to_k -> (R_to_k | set_fft_R_to_k again)* of DEPTH calls (quick 4, thorough 5; at most one "
+                     "re-targeting: shifted grid -> k-list, grid -> other grid, k-list -> grid) on ONE Rvectors object with der 0-2 / "
+                     "hermitian flags and fftlib in lower and mixed case (the constructor lower-cases it) and checks that every result ever "
+                     "returned still equals the exact value for its own arguments; every history is replayed on one real Rvectors, all "
+                     "returned arrays are kept and re-compared after every later call.",
                 note="amplitudes are cyclotomic integers and centres quarters of lattice vectors, so the exact k-space values are in "
                      "Z[zeta12]/4^der; Xbar is brought back to the Wannier gauge with the Data_K's own UU_K before comparison. The exact "
                      "table fixes conventions the statement does not name (sign of the Fourier phase, no centre phase in H(k), derivative "
@@ -335,7 +340,7 @@ def replay_history(rep, cmp, s, systs, info):
                     if isinstance(out, np.ndarray):
                         held.append(dict(arr=out, ref=out.copy(), label=label, call=step + 1, reported=False))
                 look_again(step + 1)
-    guarded(rep, f"history:{'klist' if False else canon}", det, run)
+    guarded(rep, f"history:{canon}", det, run)
     info["histories"] += 1
     info["results_held"] += len(held)
     return det
@@ -582,8 +587,9 @@ def _check(rep, tier):
     rep.rule("TLC enumerates every Hermitian model with <= MAXHOPS independent hoppings over the listed R universe / orbital pairs / "
              "amplitudes, every listed lattice, centre set, FFT grid and K-shift; a case = one enumerated input replayed on the real "
              "back ends (numpy, one of fftw / slow chosen by the seed, the k-list; every stride-th input all four; HH_K, Xbar, R_to_k; "
-             "derivative orders 0..MAXDER, all 3^n components) with exact expected values from the TLC state, plus seeded random "
-             "recorded calls validated by TLC; distinct by input")
+             "derivative orders 0..MAXDER, all 3^n components; fftlib in lower case, 30% of the calls in mixed case) with exact expected "
+             "values from the TLC state; every complete call history of MC_TBFourierHist replayed on one real Rvectors object; plus "
+             "seeded random recorded calls validated by TLC; distinct by input")
     rep.assume("amplitudes in Z[zeta12], centres in quarters, integer lattice matrices, FFT sizes dividing 12, K-shifts in twelfths: the "
                "exact values lie in Z[zeta12]/4^der and the floating-point results are exact to ~1e-13")
     cyclo_library_check(rep)
@@ -617,7 +623,9 @@ def _check(rep, tier):
                                 FFTS="{211, 311}", DKS="{50000}", MAXDER=1), 2),
         ]
     nalias = nshift = ntriv = nreplayed = 0
-    info = dict(grid_listed_in_another_order=0, backends_per_state=defaultdict(int))
+    info = dict(grid_listed_in_another_order=0, backends_per_state=defaultdict(int), mixed_case_spellings=0, histories=0, results_held=0)
+    hist_kw = (dict(MODELIDS="{1, 3}", TARGETIDS="{1, 2, 3, 4}", ARGIDS="{1, 2, 3, 4}", LIBS='{"fftw", "FFTW", "numpy", "Slow"}', DEPTH=5, MAXRET=1)
+               if thorough else {})
     cpu0 = os.times()
     sens = dict(RSETID=1, NWS="{1}", LATIDS="{1}", TAUIDS="{1}", AMPIDS="{1, 2}", MAXHOPS=1, FFTS="{211, 311}", DKS="{10000}", MAXDER=0)
     # all TLC runs of the model-checking part at once (at most four JVMs at a time), the replays afterwards
@@ -625,8 +633,13 @@ def _check(rep, tier):
                         [dict(module="MC_TBFourier.tla", cfg=mc_cfg(**dict(sens, OnReducedR="TRUE"))[0], name="c02_sens_phase", dump=False,
                               workers=2, heap="1g", coverage=False, timeout=900),
                          dict(module="MC_TBFourier.tla", cfg=mc_cfg(**dict(sens, Symmetrise="FALSE"))[0], name="c02_sens_herm", dump=False,
-                              workers=2, heap="1g", coverage=False, timeout=900)])
-    st1, st2 = results[-2:]
+                              workers=2, heap="1g", coverage=False, timeout=900),
+                         dict(module="MC_TBFourierHist.tla", cfg=hist_cfg(**hist_kw)[0], name="c02_hist")] +
+                        [dict(module="MC_TBFourierHist.tla", cfg=hist_cfg(**dict(HIST_SENS, **kw))[0], name=f"c02_sens_{nm}", dump=False,
+                              workers=2, heap="1g", coverage=False, timeout=900)
+                         for nm, kw in (("buffer", dict(SharedBuffer="TRUE")), ("staledk", dict(StaleDK="TRUE")),
+                                        ("spelling", dict(KeepSpelling="TRUE", LIBS='{"FFTW"}')))])
+    st1, st2, hst, sb, sd, sp = results[len(configs):]
     for (name, kw, stride), tst in zip(configs, results):
         cfg, consts = mc_cfg(**kw)
         if tst.get("violation"):
@@ -659,6 +672,33 @@ def _check(rep, tier):
             if nreplayed <= 2:
                 rep.sample(dict(config=name, **det, HH_K_first_row=str(exact_rows_array(s["direct"], 0, 1, s["nw"], DD)[0].tolist())))
         drop_scratch(tst)
+    # ---------------- call histories on one Rvectors object: spec -> code
+    if hst.get("violation"):
+        from ..ftable import spec_violation
+        spec_violation(rep, hst, "c02_hist")
+    else:
+        tlc.check_not_vacuous(hst, ["SetTarget", "ReTarget", "CallRtoK"], "c02_hist")
+        hconsts = hist_cfg(**hist_kw)[1]
+        hst["constants"] = hconsts
+        rep.add_tlc("c02_hist", hst)
+        hstates = sorted_states(hst, ("hist", "hops"), lambda s: len(s["hist"]) == hconsts["DEPTH"],
+                                lambda s: (s["model"], s["lib"], s["hist"]))
+        systs = {}
+        shapes = defaultdict(int)
+        for s in hstates:
+            det = replay_history(rep, cmp, s, systs, info)
+            ops = [dict(e) for e in s["hist"]]
+            kinds = [dict(e["t"])["kind"] for e in ops if e["op"] == "target"]
+            shapes["->".join(kinds)] += 1
+            rep.case(("hist", s["model"], s["lib"], repr([(e["op"], e["id"]) for e in ops])), nontrivial=True)
+            if info["histories"] == 1:
+                rep.sample(dict(config="c02_hist", **det))
+        if not rep.violations and (not shapes.get("grid->klist") or not shapes.get("grid->grid") or not shapes.get("grid")):
+            raise MachineryError(f"vacuous history enumeration: {dict(shapes)}")
+        rep.part("replay_histories", histories=info["histories"], arrays_held_and_rechecked=info["results_held"], by_targets=dict(shapes),
+                 what="one Rvectors object per history; every array returned by R_to_k is kept and compared again with a copy taken at "
+                      "return time after every later call (set_fft_R_to_k / R_to_k) on the same object")
+        drop_scratch(hst)
     if not rep.violations and (nalias == 0 or nshift == 0 or nreplayed - ntriv == 0):
         raise MachineryError(f"vacuous enumeration: aliasing cases {nalias}, shifted cases {nshift}, non-zero models {nreplayed - ntriv}")
     cpu1 = os.times()
@@ -667,6 +707,7 @@ def _check(rep, tier):
              max_relative_deviation_from_exact=cmp.maxdev, max_hermiticity_deviation=cmp.maxherm, tolerance=TOL,
              replay_cpu_s=round(cpu1.user + cpu1.system - cpu0.user - cpu0.system, 1))
     rep.part("information_not_part_of_the_statement", fft_grid_listed_in_another_order_than_the_model=info["grid_listed_in_another_order"])
+    rep.part("replay", back_ends_called_with_a_mixed_case_fftlib=info["mixed_case_spellings"])
     if cmp.maxdev * 1e4 > TOL:
         rep.part("tolerance_warning", observed=cmp.maxdev, tolerance=TOL, what="the tolerance is less than 10^4 times the observed deviation")
 
@@ -675,8 +716,13 @@ def _check(rep, tier):
         raise MachineryError(f"sensitivity self-test failed: K-shift phase on the reduced R should violate FFTEqualsDirect ({st1.get('violation')}, {st1.get('error')})")
     if not st2.get("violation") or st2["violation"][1] not in ("HkHermitian", "HermSymNoopHHK"):
         raise MachineryError(f"sensitivity self-test failed: non-Hermitian models should violate HkHermitian ({st2.get('violation')}, {st2.get('error')})")
-    rep.part("sensitivity", phase_on_reduced_R=st1["violation"][1], non_hermitian_model=st2["violation"][1])
-    for x in (st1, st2):
+    for x, what in ((sb, "a returned array that is the FFTW plan's input buffer"), (sd, "stale K-shift phases after re-targeting to a k-list"),
+                    (sp, "fftlib not lower-cased")):
+        if not x.get("violation") or x["violation"][1] != "ResultsAreValues":
+            raise MachineryError(f"sensitivity self-test failed: {what} should violate ResultsAreValues ({x.get('violation')}, {x.get('error')})")
+    rep.part("sensitivity", phase_on_reduced_R=st1["violation"][1], non_hermitian_model=st2["violation"][1],
+             shared_fftw_buffer=sb["violation"][1], stale_dK_after_retarget=sd["violation"][1], fftlib_spelling_kept=sp["violation"][1])
+    for x in (st1, st2, sb, sd, sp):
         x["violation"] = None
         drop_scratch(x)
 
